@@ -24,7 +24,44 @@ def _delegated_cases(tier, r):
 
 def cases(tier, r):
   yield from _cases(tier, r)
+  for _ in range(40 if tier == 'quick' else 600):
+    yield 'partials', {'partials': True, 'seed': r.getrandbits(48)}
   yield from _delegated_cases(tier, r)
+
+
+def run_partials(case):
+  """Partial / ArgFactory nodes (with and WITHOUT bound arguments) shared and duplicated inside
+  one configuration: one built object per instance, the same object for every reference to it,
+  distinct objects for distinct (even equal) instances and for separate builds."""
+  import functools
+  import random
+  r = random.Random(case['seed'])
+  g = graphs.node_fn(1, r.randrange(3))
+  mk = lambda: r.choice([lambda: fdl.Partial(g), lambda: fdl.Partial(g), lambda: fdl.Partial(g, p=1),
+                         lambda: fdl.Partial(g, q=[2])])()
+  nodes = [mk() for _ in range(r.randint(2, 4))]
+  refs = [r.randrange(len(nodes)) for _ in range(r.randint(3, 6))]
+  root = fdl.Config(graphs.node_fn(1, 0), p=[nodes[i] for i in refs], q={'k': nodes[refs[0]]},
+                    r=(nodes[refs[-1]],))
+  b1, b2 = fdl.build(root), fdl.build(root)
+
+  def parts(b):
+    rec = targets.rec_of(b)
+    s = dict(rec.slots)
+    return list(s['p']) + [s['q']['k'], s['r'][0]]
+  idx = refs + [refs[0], refs[-1]]
+  p1, p2 = parts(b1), parts(b2)
+  problems = []
+  for a, i in zip(p1, idx):
+    if not isinstance(a, functools.partial) or a.func is not g:
+      problems.append(f'reference to Partial #{i} was built to {type(a).__name__}, not a functools.partial of its callable')
+  for x in range(len(idx)):
+    for y in range(x + 1, len(idx)):
+      if (p1[x] is p1[y]) != (idx[x] == idx[y]):
+        problems.append(f'positions {x},{y}: same built object = {p1[x] is p1[y]}, same Buildable instance = {idx[x] == idx[y]}')
+  if any(a is b for a in p1 for b in p2):
+    problems.append('two separate fdl.build calls share a built partial')
+  return {'partials': True, 'problems': problems[:4], 'n': len(idx)}
 
 
 def _cases(tier, r):
@@ -50,6 +87,8 @@ def make_root(case):
 
 
 def execute(case):
+  if case.get('partials'):
+    return run_partials(case), None
   if case.get('delegate'):
     import importlib
     mod = importlib.import_module('harness.props.' + case['delegate'])
@@ -142,6 +181,8 @@ def compare(real, model):
     import importlib
     inner = {k: v for k, v in real.items() if k != '__delegate'}
     return importlib.import_module('harness.props.' + real['__delegate']).compare(inner, model)
+  if model is None or real.get('partials'):
+    return []
   diffs = []
   rb, mb = real['build'], model['build']
   if 'raised' in rb or 'err' in mb:
@@ -160,6 +201,11 @@ def oracle(case, real):
   if case.get('delegate'):
     import importlib
     return importlib.import_module('harness.props.' + case['delegate']).oracle(case['case'], real)
+  if case.get('partials'):
+    if real['problems']:
+      return {'what': 'built Partial nodes do not mirror the Partial instances of the configuration',
+              'problems': real['problems']}
+    return None
   rb = real['build']
   ref = real['ref_canon']
   if 'raised' in rb:
@@ -188,6 +234,8 @@ def nontrivial(case, real):
     import importlib, json as _json
     k = importlib.import_module('harness.props.' + case['delegate']).nontrivial(case['case'], real)
     return None if k is None else ('via', _json.dumps(k, default=str))
+  if real.get('partials'):
+    return ('partials', case['seed'])
   if 'raised' in real['build']:
     return None
   c = json.dumps(real['build']['canon'])
